@@ -52,9 +52,13 @@ func convertHasExpression(stmt *gripql.HasExpression, not bool) bson.M {
 		for _, e := range and.Expressions {
 			andRes = append(andRes, convertHasExpression(e, not))
 		}
-		output = bson.M{"$and": andRes}
-		if not {
+		if len(andRes) == 0 {
+			// and() holds for every element (MongoDB rejects an empty $and/$or array)
+			output = matchNone(!not)
+		} else if not {
 			output = bson.M{"$or": andRes}
+		} else {
+			output = bson.M{"$and": andRes}
 		}
 
 	case *gripql.HasExpression_Or:
@@ -63,9 +67,13 @@ func convertHasExpression(stmt *gripql.HasExpression, not bool) bson.M {
 		for _, e := range or.Expressions {
 			orRes = append(orRes, convertHasExpression(e, not))
 		}
-		output = bson.M{"$or": orRes}
-		if not {
+		if len(orRes) == 0 {
+			// or() holds for no element
+			output = matchNone(not)
+		} else if not {
 			output = bson.M{"$and": orRes}
+		} else {
+			output = bson.M{"$or": orRes}
 		}
 
 	case *gripql.HasExpression_Not:
@@ -124,8 +132,15 @@ func convertCondition(cond *gripql.HasCondition, not bool) bson.M {
 	case gripql.Condition_LTE:
 		expr = bson.M{"$lte": val}
 	case gripql.Condition_WITHIN:
+		// $in needs an array; like the core engine, nothing is within a value that is not a list
+		if _, ok := val.([]interface{}); !ok {
+			return matchNone(not)
+		}
 		expr = bson.M{"$in": val}
 	case gripql.Condition_WITHOUT:
+		if _, ok := val.([]interface{}); !ok {
+			return matchNone(!not)
+		}
 		expr = bson.M{"$not": bson.M{"$in": val}}
 	case gripql.Condition_CONTAINS:
 		expr = bson.M{"$in": []interface{}{val}}
